@@ -307,7 +307,14 @@ func (r *Rng) mutate(s string) string {
 	n := r.Intn(3)
 	for i := 0; i < n; i++ {
 		b := []byte(s)
-		switch r.Intn(6) {
+		switch r.Intn(7) {
+		case 6: // a Unicode confusable in place of an ASCII byte
+			if len(b) > 0 {
+				p := r.Intn(len(b))
+				if cf := confusables(b[p]); len(cf) > 0 {
+					s = string(b[:p]) + r.Pick(cf) + string(b[p+1:])
+				}
+			}
 		case 0: // insert
 			p := r.Intn(len(b) + 1)
 			s = string(b[:p]) + r.Pick(mutChars) + string(b[p:])
